@@ -368,7 +368,7 @@ def run_c17(ctx, rng, job):
                          {'form': form, 'interface': hi, 'implementation': hm, 'unbindable_shapes': [list(map(str, s)) for s in bad[:3]]})
             ctx.shape(('c17', form, tuple(sorted(gi.items())), tuple(sorted(gm.items()))), nontrivial=True)
     # multi-error / attribute / declaration cases
-    for _ in range(80):
+    for _ in range(80 if job['tier'] == 'quick' else 1500):
         multi_case(ctx, rng, mod)
     if ctx.case == 0:
         special_cases(ctx, mod)
